@@ -282,5 +282,43 @@
   LA(i) LI(min_count <= i && i <= count1) QI_CF(count1) \
   LD(count1 - i)
 
+/* compare_inclusion: `result` is the inclusion class of the prefix of words already visited.
+ * REL(r, v1, v2): what class r says about one pair of words (forall direction). */
+#define CI_REL(r, v1, v2) (((r) == HWLOC_BITMAP_EQUAL ==> (v1) == (v2)) && \
+                           ((r) == HWLOC_BITMAP_INCLUDED ==> ((v1) & ~(v2)) == 0) && \
+                           ((r) == HWLOC_BITMAP_CONTAINS ==> ((v2) & ~(v1)) == 0) && \
+                           ((r) == HWLOC_BITMAP_DIFFERENT ==> ((v1) & (v2)) == 0))
+#define CI_GHOST(g) \
+  LI((g) < i ==> CI_REL(result, W(set1, g), W(set2, g))) \
+  LI((empty1 && (g) < i) ==> W(set1, g) == 0) \
+  LI((empty2 && (g) < i) ==> W(set2, g) == 0)
+#ifdef Q_CINC   /* contract hwloc_bitmap_compare_inclusion__q: case-specific strengthening */
+#define QI_CINC \
+  LI(q_case == 1 ==> result == HWLOC_BITMAP_EQUAL) \
+  LI(q_case == 2 ==> ((result == HWLOC_BITMAP_EQUAL || result == HWLOC_BITMAP_INCLUDED) && \
+                      ((g_k < i && (W(set2, g_k) & ~W(set1, g_k)) != 0) ==> result == HWLOC_BITMAP_INCLUDED))) \
+  LI(q_case == 3 ==> ((result == HWLOC_BITMAP_EQUAL || result == HWLOC_BITMAP_CONTAINS) && \
+                      ((g_k < i && (W(set1, g_k) & ~W(set2, g_k)) != 0) ==> result == HWLOC_BITMAP_CONTAINS))) \
+  LI(q_case == 4 ==> ((result == HWLOC_BITMAP_EQUAL ==> (empty1 && empty2)) && \
+                      (result == HWLOC_BITMAP_INCLUDED ==> (empty1 && !empty2)) && \
+                      (result == HWLOC_BITMAP_CONTAINS ==> (!empty1 && empty2)) && \
+                      (result == HWLOC_BITMAP_DIFFERENT ==> (!empty1 && !empty2)) && \
+                      ((g_k < i && W(set1, g_k) != 0) ==> !empty1) && \
+                      ((g_k2 < i && W(set2, g_k2) != 0) ==> !empty2)))
+#else
+#define QI_CINC
+#endif
+#ifndef CI_GHOST2
+#define CI_GHOST2
+#endif
+#define HWLOC_VERIF_LOOP_hwloc_bitmap_compare_inclusion_1 \
+  LA(i, result, empty1, empty2) \
+  LI(i <= max_count) \
+  LI(result == HWLOC_BITMAP_EQUAL || result == HWLOC_BITMAP_INCLUDED || result == HWLOC_BITMAP_CONTAINS || result == HWLOC_BITMAP_DIFFERENT) \
+  LI((empty1 == 0 || empty1 == 1) && (empty2 == 0 || empty2 == 1)) \
+  LI(result == HWLOC_BITMAP_EQUAL ==> empty1 == empty2) \
+  CI_GHOST(g_k) CI_GHOST(g_k2) CI_GHOST(g_j) QI_CINC \
+  LD(max_count - i)
+
 #include "bitmap.loops.todo.h"
 #endif
